@@ -162,6 +162,7 @@ class JnpSelectPlugin(PrimitiveLeafPlugin):
         )
         else_val = self._ensure_dtype(ctx, else_val, default_var, result_dtype)
 
+        running_shape = tuple(getattr(default_var.aval, "shape", ()))
         for cond_var, choice_var in reversed(list(zip(cond_vars, choice_vars))):
             cond_val = ctx.get_value_for_var(
                 cond_var, name_hint=ctx.fresh_name("select_cond")
@@ -184,7 +185,16 @@ class JnpSelectPlugin(PrimitiveLeafPlugin):
             ) or getattr(getattr(else_val, "type", None), "dtype", None)
             if out_dtype is not None:
                 out_val.type = ir.TensorType(out_dtype)
-            _stamp_type_and_shape(out_val, result_shape)
+            # Inner Where nodes only see a subset of the operands: annotate each
+            # with the broadcast of what it consumes, not with the final shape.
+            running_shape = tuple(
+                _broadcast_shape(
+                    tuple(getattr(cond_var.aval, "shape", ())),
+                    tuple(getattr(choice_var.aval, "shape", ())),
+                    running_shape,
+                )
+            )
+            _stamp_type_and_shape(out_val, running_shape)
             _ensure_value_metadata(ctx, out_val)
             else_val = out_val
 
